@@ -79,6 +79,12 @@ Definition interface_by_name (tbl : list iface) (name : bytes) : option Z :=
 Definition interface_by_index (tbl : list iface) (idx : Z) : option bytes :=
   if idx <=? 0 then None else by_index tbl idx.
 
+(* the assumption on the OS table: a finite partial bijection between non-empty
+   names and positive uint32 indices (used only as a hypothesis of theorems) *)
+Definition valid_tbl (tbl : list iface) : Prop :=
+  NoDup (map fst tbl) /\ NoDup (map snd tbl) /\
+  Forall (fun e : iface => fst e <> [] /\ 0 < snd e < 4294967296) tbl.
+
 (* ---- sockaddr.go: dtoi ---- *)
 Definition big : Z := 16777215.  (* 0xFFFFFF *)
 
